@@ -427,6 +427,10 @@ def drive(prop, cfg, tier, seed, binary, extra, scratch, args, t0, vmerge):
             st, sig, msg = run_replay(binary, prop, w, scratch, extra)
             if st == "fail" and sig not in open_sigs:
                 violations.append(("replay", sig, msg, w))
+                if sig == "hang" or "timed out" in sig:
+                    # every further case would cost the same five minutes
+                    log("note: a corpus case does not terminate; the remaining corpus cases are skipped")
+                    break
             elif st == "error":
                 infra.append("replay of %s: %s" % (w, msg))
 
